@@ -75,7 +75,7 @@ CLAIMED = {
             'the bound; build_oms_list partitions every generated 3-ROADM network (36 direction patterns x layouts x bands) into '
             'ROADM-to-ROADM OMS with correct pairing and one common slot range; frequency_to_n/nvalue_to_frequency/slots_to_m/'
             'mvalue_to_slots/m_to_freq round-trip exactly in binary64 for |n|<=4096, m<=512.',
-            'slot numbers within [-5,5] (quick) / [-8,8]; band edges on the 6.25 GHz grid; 3 ROADM sites; z3, cvc5, symx trusted',
+            'slot numbers within [-3,3] (quick) / [-6,6]; band edges on the 6.25 GHz grid; 3 ROADM sites; z3, cvc5, symx trusted',
             'DESIGN.md §2 C15'),
     'C14': ('symx',
             'bounded symbolic execution of the real spectrum-assignment code on bitmaps of symbolic cells with z3 (inductive step '
